@@ -182,6 +182,11 @@ def build_machine(scn, lay):
             else:
                 ref = getattr(type(objs[p]), n)   # property object / function of the model class
         (conds if en["group"] == "cond" else unlesses).append(ref)
+    for en in scn["entries"]:
+        if en.get("decoy") and en["name"] not in ns:
+            def _decoy(self, _n=en["name"]):
+                raise AssertionError(f"the machine's unrelated property `{_n}` was read instead of the declared guard")
+            ns[en["name"]] = property(_decoy)
     ns["a"], ns["b"] = a, b
     def arg(lst):      # a single entry may be given without a list
         if not lst:
